@@ -83,6 +83,22 @@ CHECKS += [
     ),
 ]
 
+CHECKS += [
+    dict(
+        id="C04",
+        text="29 formulas covering every stateful and stateless built-in transform (center, scale, standardize, poly, bs, cr/cs/cc with and "
+             "without constraints, C() with several contrasts, hashed, Python factors, interactions, nested transforms) are fitted on "
+             "sub-multisets of a 5-row pool; the recorded spec is applied to EVERY row selection of length <= 2 (thorough 3) inside the "
+             "training domain and to EVERY history of <= 2 (3) events over {apply(selection), apply via model_matrix, pickle round trip, "
+             "update() copy}.  Oracle: differential row-locality out(pool[sel]) == out(pool)[sel], unchanged names, training matrix "
+             "reproduced, and the canonical digest of the spec state identical in every reachable state (one state per fit).",
+        design_ref="DESIGN.md section 3 C04",
+        note="Differential oracle (no hand-written values; the numeric contracts are C12/C13). Follow-up rows are drawn from the training "
+             "domain; lag() excluded as the property says.",
+        bfs=True,
+    ),
+]
+
 ALL = ["C%02d" % i for i in range(1, 21)]
 _reason = "check not built yet in this revision (work in progress; see DESIGN.md section 3 for the planned bounded-exhaustive check)"
 NOT_APPLICABLE = [dict(property_id=i, reason=_reason) for i in ALL if i not in {c["id"] for c in CHECKS}]
